@@ -696,7 +696,7 @@ def sync_jobs(
         return
 
     if os.path.isdir(src.path):
-        if not dry_run:
+        if not proxy.dry_run:
             dst.init()
         _sync_job_workspaces(
             src=src,
